@@ -458,3 +458,85 @@ theorem insertAfter_same_merged {f : Forest} {q : Nat} {vq : Value} {l' : List H
     simp [join, Keep.resident, hak, a']
 
 end XotModel
+
+namespace XotModel
+open HTree Spec
+
+/-- **insert_after**: the model's `insert_after`, when it succeeds, is the specification's move
+    to the place after `ref` — handle for handle, with xot's survivor rule; all geometries. -/
+theorem insertAfter_spec {f : Forest} {ref c : Nat} (inv : f.Inv) (norm : f.Normal)
+    (hok : (f.insertAfter ref c).2 = .ok) :
+    (f.insertAfter ref c).1 = specMove (Keep.resident c) (.after ref) c f := by
+  by_cases hfar : f.parent? c ≠ f.parent? ref
+  · exact insertAfter_spec_far inv norm hfar hok
+  have hsamepar : f.parent? c = f.parent? ref := Classical.not_not.1 hfar
+  have nd := inv.nodup
+  have hsc : f.structureCheck (f.parent? ref) c = true := by
+    cases h : f.structureCheck (f.parent? ref) c with
+    | true => rfl
+    | false => rw [insertAfter_unfold] at hok; simp [h] at hok
+  have hsr : f.siblingReferenceCheck ref c = true := by
+    cases h : f.siblingReferenceCheck ref c with
+    | true => rfl
+    | false => rw [insertAfter_unfold] at hok; simp [hsc, h] at hok
+  obtain ⟨q, vq, A, kr, B, t, sq, ekr, hkrn, hrc, hgc, hqt, hnorm, hndoc, hvq⟩ := sibling_checks_unpack nd hsc hsr
+  subst ekr
+  have htc : t.handle = c := (findList?_some f.roots t hgc).1
+  have hnext : f.nextSibling kr.handle = nextOf B kr := Forest.nextSibling_of_ctx sq.ctx
+  have hparref : f.parent? kr.handle = some q := Forest.parent?_of_ctx sq.ctx
+  have hoccIff := occupied_after sq hgc hnorm hkrn
+  by_cases hsame : nextOf B kr = some c
+  · have hocc := hoccIff.2 hsame
+    rw [insertAfter_unfold]
+    unfold specMove
+    simp [hsc, hsr, hnext, hsame, hocc]
+  · have hocc : Dest.occupiedBy f c (.after kr.handle) = false := by
+      cases h : Dest.occupiedBy f c (.after kr.handle) with
+      | false => rfl
+      | true => exact absurd (hoccIff.1 h) hsame
+    rw [insertAfter_unfold]
+    simp only [hsc, hsr, hnext, Bool.not_true, Bool.false_eq_true, if_false, beq_iff_eq, hsame]
+    -- the moved node is a child of `q`
+    rw [hparref] at hsamepar
+    cases hctx : f.ctx? c with
+    | none => rw [Forest.parent?_of_no_ctx hctx] at hsamepar; cases hsamepar
+    | some cx =>
+      obtain ⟨e0, vo, so⟩ := SiteAt.of_ctx nd hctx
+      have hself : cx.self = t := by
+        have := Forest.get?_of_ctx nd hctx
+        rw [hgc] at this
+        exact (Option.some.inj this).symm
+      obtain ⟨po, l, k, r⟩ := cx
+      simp only at e0 so hself
+      subst hself
+      subst htc
+      have hpo : po = q := by
+        rw [Forest.parent?_of_ctx hctx] at hsamepar
+        exact Option.some.inj hsamepar
+      subst hpo
+      have hlists : vo = vq ∧ A ++ kr :: B = l ++ k :: r := by
+        have := so.kids
+        rw [sq.kids] at this
+        have := Option.some.inj this
+        injection this with _ e2 e3
+        exact ⟨e2.symm, e3⟩
+      obtain ⟨ev, hAB⟩ := hlists
+      subst ev
+      rw [Forest.prevSibling_of_ctx hctx, Forest.nextSibling_of_ctx hctx]
+      simp only
+      have hold := old_stage inv norm so
+      generalize hres : f.removeConsolidate (prevOf l k) (nextOf r k) = res at hold
+      cases hold with
+      | same hseam =>
+        simp only [Bool.false_and, Bool.false_eq_true, if_false]
+        exact insertAfter_same_nomerge inv norm so hAB hrc hkrn hnorm hseam hsame hocc
+      | merged l' a b r' x y hc el er hx hy hp hn ht =>
+        subst el er
+        simp only [Bool.true_and, hp, hn, Option.getD_some]
+        have so' : SiteAt f po vo ((l' ++ [a]) ++ k :: b :: r') := so
+        exact insertAfter_same_merged inv norm so' hc hx hy ht hAB hrc hkrn hnorm (by
+          by_cases hb : b.handle = kr.handle
+          · simp [hb]
+          · simp [hb]) hsame hocc
+
+end XotModel
